@@ -63,7 +63,7 @@ def _ionset_post(st, interp, C, res):
 
 
 U_IONSET = Unit("IonSet.__getitem__", CORE + ".IonSet.__getitem__", _ionset_inputs, _ionset_post,
-                inline={CORE + ".Ion.__init__"}, replay={"module": "c08", "task": "replay"})
+                inline={CORE + ".Ion.__init__", CORE + ".Ion.__getattr__", CORE + ".Isotope.__getattr__"}, replay={"module": "c08", "task": "replay"})
 
 
 # ------------------------------------------------------------------------------ Element.__getitem__ / add_isotope
